@@ -1,3 +1,4 @@
 import Proofs.C17
 import Proofs.C08
 import Proofs.C04
+import Proofs.C08Trunc
